@@ -18,6 +18,15 @@ def clear_cases(spec, tier, refill):
     return out, st
 
 
+def clear_all(c):
+    n = 1
+    for h in c.header:
+        w = h.split()
+        if w[0] == 'nlists':
+            n = int(w[1])
+    return ['clear %d' % i for i in range(n)]
+
+
 def make_parts():
     parts = []
     # singly-linked list
@@ -32,7 +41,8 @@ def make_parts():
         def closure(self, tier):
             def refill(c):
                 l = c.ops[-1].split()[1]
-                return ['push_back %s 0' % l, 'push_front %s 1' % l, 'push_back %s 2' % l, 'foreach %s 0' % l,
+                # element ids 8..10 are outside every closure pool, hence never linked
+                return ['push_back %s 8' % l, 'push_front %s 9' % l, 'push_back %s 10' % l, 'foreach %s 0' % l,
                         'size %s' % l, 'clear %s' % l, 'pop_front %s' % l]
             return clear_cases(C13(), tier, refill)
 
@@ -40,7 +50,7 @@ def make_parts():
             cs = C13.random_cases(self, tier, seed)
             out = []
             for c in cs[: (100 if tier == 'quick' else 1500)]:
-                out.append(Case(c.name, c.header, c.ops + ['clear 0', 'push_back 0 0', 'push_back 0 1', 'size 0', 'clear 0'], 'random'))
+                out.append(Case(c.name, c.header, c.ops + clear_all(c) + ['push_back 0 0', 'push_back 0 1', 'size 0', 'clear 0'], 'random'))
             return out
     parts.append(SListClear())
     # doubly-linked list
@@ -56,13 +66,13 @@ def make_parts():
             def closure(self, tier):
                 def refill(c):
                     l = c.ops[-1].split()[1]
-                    return ['push_back %s 0' % l, 'push_front %s 1' % l, 'push_back %s 2' % l, 'size %s' % l,
+                    return ['push_back %s 8' % l, 'push_front %s 9' % l, 'push_back %s 10' % l, 'size %s' % l,
                             'pop_back %s' % l, 'clear %s' % l, 'pop_front %s' % l]
                 return clear_cases(C12(), tier, refill)
 
             def random_cases(self, tier, seed):
                 cs = C12.random_cases(self, tier, seed)
-                return [Case(c.name, c.header, c.ops + ['clear 0', 'push_back 0 0', 'push_front 0 1', 'size 0', 'clear 0'],
+                return [Case(c.name, c.header, c.ops + clear_all(c) + ['push_back 0 0', 'push_front 0 1', 'size 0', 'clear 0'],
                              'random') for c in cs[: (100 if tier == 'quick' else 1500)]]
         parts.append(DListClear())
     except ImportError:
